@@ -212,7 +212,7 @@ def _get_module_namespace(module):
       A list of strings, one per namespace component.  This list can be formatted
       as appropriate by the caller.
     """
-    namespace_attr = ir_util.get_attribute(module.attribute, "namespace")
+    namespace_attr = ir_util.get_attribute(module.attribute, "namespace", "cpp")
     if namespace_attr and namespace_attr.string_constant.text:
         namespace = namespace_attr.string_constant.text
     else:
@@ -1812,7 +1812,7 @@ def _get_enum_value_names(enum_value):
     cases = ["SHOUTY_CASE"]
     name = enum_value.name.name.text
     if enum_case := ir_util.get_attribute(
-        enum_value.attribute, attributes.Attribute.ENUM_CASE
+        enum_value.attribute, attributes.Attribute.ENUM_CASE, "cpp"
     ):
         cases = _split_enum_case_values(enum_case.string_constant.text)
     return [name_conversion.convert_case("SHOUTY_CASE", case, name) for case in cases]
@@ -1917,7 +1917,9 @@ def _generate_header_guard(file_path):
 def _add_missing_enum_case_attribute_on_enum_value(enum_value, defaults):
     """Adds an `enum_case` attribute if there isn't one but a default is set."""
     if (
-        ir_util.get_attribute(enum_value.attribute, attributes.Attribute.ENUM_CASE)
+        ir_util.get_attribute(
+            enum_value.attribute, attributes.Attribute.ENUM_CASE, "cpp"
+        )
         is None
     ):
         if attributes.Attribute.ENUM_CASE in defaults:
@@ -1980,7 +1982,10 @@ def _offset_source_location_column(source_location, offset):
 
 
 def _verify_namespace_attribute(attr, source_file_name, errors):
-    if attr.name.text != attributes.Attribute.NAMESPACE:
+    if (
+        ir_data_utils.reader(attr).back_end.text != "cpp"
+        or attr.name.text != attributes.Attribute.NAMESPACE
+    ):
         return
     namespace_value = ir_data_utils.reader(attr).value.string_constant
     if not re.fullmatch(_NS_RE, namespace_value.text):
@@ -2035,7 +2040,10 @@ _VALID_CASES = ", ".join(case for case in _SUPPORTED_ENUM_CASES)
 
 def _verify_enum_case_attribute(attr, source_file_name, errors):
     """Verify that `enum_case` values are supported."""
-    if attr.name.text != attributes.Attribute.ENUM_CASE:
+    if (
+        ir_data_utils.reader(attr).back_end.text != "cpp"
+        or attr.name.text != attributes.Attribute.ENUM_CASE
+    ):
         return
 
     enum_case_value = attr.value.string_constant
